@@ -664,5 +664,8 @@ def controls(repo):
     bic = lambda r, rp: interp_rules(r, rp, only=('ntv2_bicubic',), fields=(0,))
     out.append(('derivative-node', text_variant(repo, 'geodepy/ntv2reader.py', 'x11 = (n12 - n2) / 2', 'x11 = (n13 - n2) / 2'), 'ntv2_bicubic::field', bic))
     out.append(('stencil-offset', text_variant(repo, 'geodepy/ntv2reader.py', 'pos9 = pos8 + num_cols', 'pos9 = pos8 + num_cols + 1'), 'ntv2_bicubic::', bic))
+    out.append(('longitude-wrap-on-the-boundary', text_variant(repo, 'geodepy/ntv2reader.py', "    # convert decimal degrees to arc-seconds\n    lat = lat * 3600\n",
+                                                                  "    if lon >= 180:\n        lon = lon - 360\n    # convert decimal degrees to arc-seconds\n    lat = lat * 3600\n"), 'position-longitude', selection_rules))
+    out.append(('subgrids-sorted', text_variant(repo, 'geodepy/ntv2reader.py', "        return grid\n\n\ndef interpolate_ntv2", "        grid.subgrids = dict(sorted(grid.subgrids.items()))\n        return grid\n\n\ndef interpolate_ntv2"), 'subgrids', order_rules))
     out.append(('header-offset', text_variant(repo, 'geodepy/ntv2reader.py', "            # GS_COUNT\n            f.seek(8, 1)\n            byte = f.read(4)", "            # GS_COUNT\n            f.seek(4, 1)\n            byte = f.read(4)"), 'read_ntv2_file', layout_rules))
     return out
